@@ -289,9 +289,21 @@ class Check:
                     cls = None
                     for m in re.finditer(r'^@CLASS (.*)$', w.stderr[-4000:], re.M):
                         cls = m.group(1).strip()
-                    self.violations.append(Violation('hang|' + (cls or label or os.path.basename(exe)),
-                                                     'per-case watchdog expired at case %s' % died,
-                                                     {'cmd': [exe] + base_args + ['--seed', str(self.seed), '--start', str(died or 0), '--cases', '1']}))
+                    # a watchdog expiry is re-run once, alone and with a generous limit, before it is called a hang (machine load)
+                    rcmd = [exe] + base_args + ['--seed', str(self.seed), '--start', str(died or 0), '--cases', '1', '--case-seconds', '180']
+                    rc2, so2, se2, to2, _ = self.run_proc(rcmd, timeout=240)
+                    if 'DONE' in so2 and not to2:
+                        self.stats['watchdog_expiries_not_reproduced'] = self.stats.get('watchdog_expiries_not_reproduced', 0) + 1
+                        w2 = WorkerOut()
+                        parse_stdout(so2, w2)
+                        for k, d in w2.viol:
+                            self.violations.append(Violation(k, d, {'cmd': rcmd}))
+                        for case, cls2, key, detail in parse_sanitizer(se2):
+                            self.violations.append(Violation(key, detail, {'cmd': rcmd}))
+                    else:
+                        self.violations.append(Violation('hang|' + (cls or label or os.path.basename(exe)),
+                                                         'per-case watchdog expired at case %s, and again when re-run alone with 180 s' % died,
+                                                         {'cmd': rcmd}))
                 elif w.timeout:
                     self.violations.append(Violation('hang|' + (label or os.path.basename(exe)),
                                                      'watchdog expired at case %s' % died,
